@@ -159,26 +159,28 @@ def handle_quic_packet(packet: Packet, keylog, quic_sessions: list[QuicSession],
             case _:
                 quic_version = QuicVersion.UNKNOWN
 
+    # first try matching ip addresses and ports: the direction is then known and only the receiver's connection IDs
+    # (which may be of zero length) are candidates for the destination connection ID of a short header packet
     for session in quic_sessions:
-        # first try matching connection IDs
-        if header_type == QuicHeaderType.LONG:
-            if dcid in session.client_cids or dcid in session.server_cids:
-                _verif.emit("match", proto="quic", idx=quic_sessions.index(session), new=False, by="cid", cid=dcid, sport=packet.sport, dport=packet.dport, src=packet.ip_src, dst=packet.ip_dst, ts=repr(packet.timestamp))
-                session.handle_packet(packet, dcid, quic_version)
-                return
-        else:
-            # match by checking all known cid lengths for session
-            for cid in session.client_cids | session.server_cids:
-                if cid == packet_payload[1:1 + len(cid)]:
-                    _verif.emit("match", proto="quic", idx=quic_sessions.index(session), new=False, by="cid", cid=cid, sport=packet.sport, dport=packet.dport, src=packet.ip_src, dst=packet.ip_dst, ts=repr(packet.timestamp))
-                    session.handle_packet(packet, cid, quic_version)
-                    return
-
-        # check matching ip address and port for zero length cids
         if session.matches_session_dgram(packet.ip_src, packet.ip_dst, packet.sport, packet.dport):
+            if header_type == QuicHeaderType.SHORT:
+                from_client = packet.ip_src == session.client_ip and packet.sport == session.client_port
+                cids = session.server_cids if from_client else session.client_cids
+                dcid = max([cid for cid in cids if cid == packet_payload[1:1 + len(cid)]], key=len, default=b"")
             _verif.emit("match", proto="quic", idx=quic_sessions.index(session), new=False, by="addr", cid=dcid, sport=packet.sport, dport=packet.dport, src=packet.ip_src, dst=packet.ip_dst, ts=repr(packet.timestamp))
             session.handle_packet(packet, dcid, quic_version)
             return
+
+    # unknown addresses (e.g. connection migration): longest non-empty connection ID of any session
+    best_session, best_cid = None, b""
+    for session in quic_sessions:
+        for cid in session.client_cids | session.server_cids:
+            if len(cid) > len(best_cid) and (cid == dcid if header_type == QuicHeaderType.LONG else cid == packet_payload[1:1 + len(cid)]):
+                best_session, best_cid = session, cid
+    if best_session is not None:
+        _verif.emit("match", proto="quic", idx=quic_sessions.index(best_session), new=False, by="cid", cid=best_cid, sport=packet.sport, dport=packet.dport, src=packet.ip_src, dst=packet.ip_dst, ts=repr(packet.timestamp))
+        best_session.handle_packet(packet, best_cid, quic_version)
+        return
 
     if header_type != QuicHeaderType.SHORT:
         new_session = QuicSession(packet, server_ports, keylog, portmap, keep_original_ports)
